@@ -67,10 +67,11 @@ def adapter_dispatch(repo: Repo, rep):
     f = repo.func("_adapter/adapter.py::get_adapter_type")
     cfg = cfg_of(f)
     n = 0
-    for r in cfg.stmts(ast.Return):
-        v = r.ast.value
-        if not isinstance(v, ast.Name):
-            continue
+    # where an adapter class is chosen: `return <Adapter>`, or `<result> = <Adapter>` for a variable that is returned at the end
+    returned = {r.ast.value.id for r in cfg.stmts(ast.Return) if isinstance(r.ast.value, ast.Name)}
+    picks = [(r, r.ast.value) for r in cfg.stmts(ast.Return) if isinstance(r.ast.value, ast.Name)]
+    picks += [(a_, a_.ast.value) for a_ in cfg.stmts(ast.Assign) if isinstance(a_.ast.value, ast.Name) and len(a_.ast.targets) == 1 and isinstance(a_.ast.targets[0], ast.Name) and a_.ast.targets[0].id in returned]
+    for r, v in picks:
         cls_ = None
         for c in repo.all_classes():
             if c.name == v.id and c.module.rel.startswith("_adapter/"):
